@@ -65,13 +65,20 @@ class Rule:
         self.soft = soft
 
     def run(self, repo: Repo) -> List[Ob]:
-        if self.soft:
-            try:
-                obs = self.fn(repo)
-            except AnalysisError as e:
-                obs = [inconclusive(self.id, f"{self.id}::unrecognised", "", 0, "", f"mechanism not recognised: {e}")]
-        else:
+        try:
             obs = self.fn(repo)
+        except AnalysisError as e:
+            if not self.soft:
+                raise
+            obs = [inconclusive(self.id, f"{self.id}::unrecognised", "", 0, "", f"mechanism not recognised: {e}")]
+        except RecursionError:
+            raise
+        except Exception as e:
+            # a shape the rule's own code does not cope with (e.g. an empty function body, a missing return): this is a limit
+            # of the analysis, not a fact about the analysed code -- reported as inconclusive with the place of the failure
+            tb = traceback.extract_tb(e.__traceback__)[-1]
+            obs = [inconclusive(self.id, f"{self.id}::analysis-limit", "", 0, "",
+                                f"rule could not analyse this tree ({type(e).__name__}: {str(e)[:120]} at {os.path.basename(tb.filename)}:{tb.lineno})")]
         for o in obs:
             if not o.rule:
                 o.rule = self.id
